@@ -8,7 +8,7 @@ import itertools
 import z3
 from .. import s1, tdmsmodel as tm
 from ..sx import explore, ex, PathAbort
-from . import c04
+from . import c04, kdedup
 
 A, B = c04.A, c04.B
 OPS = ['index_a', 'index_b', 'read_a', 'read_b', 'next_chan_a', 'next_chan_b', 'next_file']
@@ -42,7 +42,7 @@ META = dict(
     assumptions=c04.META['assumptions'] + ['reference for each operation = the same request on a freshly opened file, cross-checked '
                                            'with the oracle (concatenation of chunks == channel values, offsets == running count)'],
     buckets=dict(all=['index-after-stream', 'stream-after-index', 'file-stream-interleaved', 'cache-hit-after-other-read',
-                      'drain-complete']),
+                      'drain-complete'] + kdedup.BUCKETS),
     replays_per_signature=4,
     validate_samples=10,
 )
@@ -62,7 +62,7 @@ def tasks(tier, seed):
         fixed = 2 if H >= 3 else 1
         for pre in itertools.product(range(len(OPS)), repeat=fixed):
             ts.append(dict(shape=sh, file=fi, H=H, prefix=list(pre)))
-    return ts
+    return ts + kdedup.tasks(tier)          # the offset arrays one channel's index may share with another's (_build_index)
 
 
 def _chunks_fresh(enc):
@@ -182,6 +182,8 @@ def _show(x):
 
 def run_task(task):
     from nptdms import TdmsFile
+    if task.get('kind') == 'dedup':
+        return kdedup.run_task(task)
     enc = s1.build(task['shape'])
     ref = _chunks_fresh(enc)
     bad = _oracle_ok(enc, ref)
@@ -252,6 +254,8 @@ def run_task(task):
 
 
 def signature(c):
+    if c['task'].get('kind') == 'dedup':
+        return kdedup.signature('C05', c)
     what = c.get('what', '')
     if what in ('exception', 'drain-exception'):
         what += ':' + str(c.get('exc'))
@@ -262,6 +266,8 @@ def signature(c):
 def replay(art):
     from nptdms import TdmsFile
     task, inp = art['task'], art['inputs']
+    if task.get('kind') == 'dedup':
+        return kdedup.replay('C05', art)
     enc = s1.build(task['shape'])
     ref = _chunks_fresh(enc)
     bad = _oracle_ok(enc, ref)
